@@ -14,6 +14,7 @@ struct Block {
   int  slot = -1;
   bool full_fill = false;     // every byte carries the pattern even if the block is huge
   bool odd_origin = false;    // the pointer descends (in place) from an aligned_at allocation: natural alignment is no obligation
+  bool tagged = false;        // allocated in a heap with a tag != 0
   int  orphan_kind = 0;       // 0 none, 1 owner thread ended, 2 its tagged heap was deleted, 3 its arena-bound heap was deleted
 };
 
